@@ -437,12 +437,52 @@ def _counts_agree(ctx, m, n_ids, feats, what):
     return True
 
 
+def _same_object_case(ctx, rng, n_ids):
+    """ComposedPopulationModel([m] * k): one object given for k sub-models
+    still means k sub-models with their own dimensions and names"""
+    k = int(rng.integers(2, 4))
+    cls = [chi.LogNormalModel, chi.GaussianModel, chi.PooledModel,
+           chi.TruncatedGaussianModel][int(rng.integers(4))]
+    feats = {'mode': 'same_object', 'class': cls.__name__, 'k': k,
+             'n_ids': n_ids}
+    ctx.case(('submodel', 'same_object', cls.__name__, k), True,
+             sample=feats)
+    try:
+        pop = chi.ComposedPopulationModel([cls()] * k)
+        pop.set_n_ids(n_ids)
+        ref = chi.ComposedPopulationModel([cls() for _ in range(k)])
+        ref.set_n_ids(n_ids)
+    except Exception as e:      # noqa
+        ctx.violation_exc('construction_raises', e, {'case': feats}, feats)
+        return
+    ctx.count('invariant_evaluations')
+    names, want = pop.get_parameter_names(), ref.get_parameter_names()
+    if names != want or len(set(names)) != len(names):
+        _bad(ctx, 'population_counts',
+             {'problems': ['one object for %d sub-models: names %s, '
+                           'separate objects: %s' % (k, names, want)]},
+             feats)
+        return
+    dims = ['d%d' % i for i in range(pop.n_dim())]
+    pop.set_dim_names(dims)
+    ref.set_dim_names(dims)
+    if pop.get_dim_names() != dims or \
+            pop.get_parameter_names() != ref.get_parameter_names():
+        _bad(ctx, 'population_counts',
+             {'problems': ['dimension names %s after set_dim_names(%s)' % (
+                 pop.get_dim_names(), dims)]}, feats)
+
+
 def submodel_case(ctx, rng, idx):
     """a composite whose sub-model is reconfigured AFTER composing (the
     calls exist only on the sub-model classes), and wrapped heterogeneous
     sub-models that were created for another number of individuals"""
-    mode = ['sub_fix', 'sub_select', 'wrapped_heterogeneous'][idx % 3]
+    mode = ['sub_fix', 'sub_select', 'wrapped_heterogeneous',
+            'same_object'][idx % 4]
     n_ids = int(rng.integers(1, 5))
+    if mode == 'same_object':
+        _same_object_case(ctx, rng, n_ids)
+        return
     other = [chi.PooledModel(), chi.GaussianModel(),
              chi.LogNormalModel(n_dim=2)][int(rng.integers(3))]
     first = bool(rng.integers(2))
@@ -909,5 +949,5 @@ FAMILIES = [
     Family('individual', individual_case, quick=400, thorough=6000),
     Family('mechanistic', mech_case, quick=160, thorough=2000),
     Family('controller', controller_case, quick=300, thorough=4000),
-    Family('submodel', submodel_case, quick=360, thorough=3600),
+    Family('submodel', submodel_case, quick=480, thorough=4800),
 ]
